@@ -250,38 +250,47 @@ Definition pmon_step (p : pstate) (o : sop) (r : out) (head_is_data : bool) : op
   | _, _ => None
   end.
 
-(** the per-state clauses: window accounting both ways, and no lost ACK *)
-Definition ps_ok (p : pstate) (sa sb : snap) : bool :=
+(** the per-state clauses: window accounting both ways, no lost ACK, and no
+    stall: both send windows are never exhausted at once unless an ACK is on
+    its way ([ackfly]) - otherwise neither end could ever send again *)
+Definition ps_ok (p : pstate) (sa sb : snap) (ackfly : bool) : bool :=
   win_ok (f_ab p) sa sb && win_ok (f_ba p) sb sa
-  && (n_rack sb =? o_ab p) && (n_rack sa =? o_ba p).
+  && (n_rack sb =? o_ab p) && (n_rack sa =? o_ba p)
+  && (negb ((0 <? n_swin sa) && (0 <? n_swin sb) && (n_slevel sa =? 0) && (n_slevel sb =? 0)) || ackfly).
 
-(** [cab] / [cba] mirror the channels only to know whether the packet that
-    arrives is a data segment (handshake packets do not count against the window). *)
-Fixpoint pmon_run (p : pstate) (cab cba : list bool) (ops : list sop)
+(** [cab] / [cba] mirror the two channels (the packets the monitor has seen go
+    out and not yet come in): a handshake packet does not count against the
+    window, and an ACK in flight is what re-opens an exhausted window. *)
+Definition head_is_data (c : list bytes) : bool :=
+  match c with b :: _ => is_data_seg b | [] => false end.
+
+Fixpoint pmon_run (p : pstate) (cab cba : list bytes) (ops : list sop)
     (rs : list (out * snap * snap)) : bool :=
   match ops, rs with
   | [], [] => true
   | o :: ops', (r, sa, sb) :: rs' =>
       let hd :=
         match o with
-        | SDeliver SB => match cab with b :: _ => b | [] => false end
-        | SDeliver SA => match cba with b :: _ => b | [] => false end
+        | SDeliver SB => head_is_data cab
+        | SDeliver SA => head_is_data cba
         | _ => false
         end in
       let cab' :=
         match o, r with
-        | SPoll SA _, RBytes (x :: l) => cab ++ [is_data_seg (x :: l)]
+        | SPoll SA _, RBytes (x :: l) => cab ++ [x :: l]
         | SDeliver SB, _ => tl cab
         | _, _ => cab
         end in
       let cba' :=
         match o, r with
-        | SPoll SB _, RBytes (x :: l) => cba ++ [is_data_seg (x :: l)]
+        | SPoll SB _, RBytes (x :: l) => cba ++ [x :: l]
         | SDeliver SA, _ => tl cba
         | _, _ => cba
         end in
       match pmon_step p o r hd with
-      | Some p' => ps_ok p' sa sb && pmon_run p' cab' cba' ops' rs'
+      | Some p' =>
+          ps_ok p' sa sb (existsb seg_has_ack cab' || existsb seg_has_ack cba')
+          && pmon_run p' cab' cba' ops' rs'
       | None => false
       end
   | _, _ => false
